@@ -375,6 +375,13 @@ impl Ctx {
                 .collect::<Vec<_>>()),
         );
         coverage.insert("inconclusive".into(), json!(self.obs.inconclusive));
+        // the process environment the library ran in (the driver varies the time zone with the
+        // seed: nothing in the properties may depend on it)
+        coverage.insert(
+            "environment".into(),
+            json!({"TZ": std::env::var("TZ").unwrap_or_else(|_| "(unset)".into()),
+                   "local_utc_offset_s": chrono::Local::now().offset().local_minus_utc()}),
+        );
         coverage.insert(
             "violation_signatures".into(),
             json!(fresh.iter().map(|v| v.signature.clone()).collect::<Vec<_>>()),
